@@ -269,11 +269,20 @@ func (g *Gen) motifStale() int {
 
 // a peer block that conflicts with pending transactions: they and their dependents leave the pool
 func (g *Gen) motifEvict() int {
-	o := g.anyOwner()
+	// the peer's transaction spends a confirmed output (one of the setup block)
+	var in InRef
+	o := ""
+	for _, u := range []string{"u0", "u1", "u2", "u3"} {
+		for j, x := range g.avail[u] {
+			if x.Tx >= 1 && x.Tx <= 4 && o == "" {
+				in, o = x, u
+				g.avail[u] = append(append([]InRef{}, g.avail[u][:j]...), g.avail[u][j+1:]...)
+			}
+		}
+	}
 	if o == "" {
 		return 0
 	}
-	in, _ := g.take(o)
 	var ftxs []int
 	ftxs = append(ftxs, g.xfer("dtx", o, in, []string{g.user()}, "", 0))
 	y := g.xfer("atx", o, in, []string{g.user()}, "", 0)
@@ -287,8 +296,15 @@ func (g *Gen) motifEvict() int {
 			}
 		}
 	}
-	if g.r.Bool() {
-		k := g.key()
+	// a key no pending transaction has written: the peer's transaction must cite the confirmed version
+	var free []string
+	for _, k := range g.e.w.Keys {
+		if g.e.kvStr(g.e.w.P, k) == g.e.kvStr(g.e.w.R, k) {
+			free = append(free, k)
+		}
+	}
+	if g.r.Bool() && len(free) > 0 {
+		k := free[g.r.Intn(len(free))]
 		ftxs = append(ftxs, g.ktx("dtx", g.user(), "put_"+k+"_"+g.val()))
 		g.ktx("atx", g.user(), "get_"+k)
 		g.ktx("atx", g.user(), "put_"+k+"_"+g.val())
@@ -357,14 +373,23 @@ func (g *Gen) scenario(profile string) {
 	}
 	n := 0
 	if big {
-		// a pool larger than the block limit (0.8 MB of transactions): dependency chains of padded transfers
-		for c := 0; c < 2; c++ {
+		// a pool larger than the block limit (0.8 MB of transactions): dependency chains of padded transfers whose
+		// sizes are chosen so that a transaction in the middle of a chain no longer fits while its (small)
+		// dependents would
+		shapes := [][]int{{340000, 340000, 200000, 0, 0}, {150000, 0}}
+		if g.r.Bool() {
+			shapes = [][]int{{260000, 260000, 260000, 100000, 0}, {0, 300000, 0}}
+		}
+		for _, pads := range shapes {
 			o := g.anyOwner()
 			in, _ := g.take(o)
 			cur, owner := in, o
-			for i := 0; i < 4; i++ {
+			for _, pad := range pads {
+				if pad > 0 {
+					pad += g.r.Intn(20000)
+				}
 				to := g.user()
-				idx := g.xfer("atx", owner, cur, []string{to}, "", 120000+g.r.Intn(60000))
+				idx := g.xfer("atx", owner, cur, []string{to}, "", pad)
 				l := g.avail[to]
 				for j := len(l) - 1; j >= 0; j-- {
 					if l[j].Tx == idx {
@@ -539,6 +564,67 @@ func (g *Gen) check() {
 		g.emit("replay " + idsStr(e.packed))
 	}
 	g.pruneAvail()
+}
+
+// scripted builds one named corner-case scenario (used to write the corpus files).
+func (g *Gen) scripted(name string) {
+	g.canon = nil
+	fee := "0"
+	if name == "diamond-fee" {
+		fee = "1"
+	}
+	reset := "reset fee=" + fee
+	if name == "size-limit" {
+		reset += " mb=1"
+	}
+	g.emit(reset)
+	g.avail = map[string][]InRef{}
+	for i := 0; i < 4; i++ {
+		u := fmt.Sprintf("u%d", i)
+		g.xfer("atx", u, InRef{0, i, u, 1000}, []string{u, u, u, u}, "", 0)
+	}
+	g.ktx("atx", "u0", "put_k0_a+put_k1_b")
+	g.ktx("atx", "u1", "put_k2_c+put_k3_d")
+	g.emit("pack")
+	g.pruneAvail()
+	switch name {
+	case "readers-writer":
+		g.ktx("atx", "u0", "get_k0")
+		g.ktx("atx", "u1", "get_k0+put_k1_x")
+		g.ktx("atx", "u2", "put_k0_y")
+		g.ktx("atx", "u3", "get_k0")
+	case "never-written-and-delete":
+		g.ktx("atx", "u0", "get_k4")
+		g.ktx("atx", "u1", "put_k4_new")
+		g.ktx("atx", "u2", "get_k2")
+		g.ktx("atx", "u3", "del_k2")
+		g.ktx("atx", "u0", "get_k2")
+	case "diamond-fee":
+		g.motifDiamond()
+		g.motifChain()
+	case "size-limit":
+		for _, pads := range [][]int{{340000, 340000, 200000, 0, 0}, {150000, 0}} {
+			o := g.anyOwner()
+			in, _ := g.take(o)
+			cur, owner := in, o
+			for _, pad := range pads {
+				to := g.user()
+				idx := g.xfer("atx", owner, cur, []string{to}, "", pad)
+				l := g.avail[to]
+				for j := len(l) - 1; j >= 0; j-- {
+					if l[j].Tx == idx {
+						cur, owner = l[j], to
+						g.avail[to] = append(append([]InRef{}, l[:j]...), l[j+1:]...)
+						break
+					}
+				}
+			}
+		}
+	case "evicted-and-stale":
+		g.motifStale()
+		g.motifEvict()
+	}
+	g.check()
 }
 
 // ---------- raw graphs for TopSortDFS
